@@ -9,6 +9,13 @@ import BqVerif.Proofs.CircBatch
 import BqVerif.Proofs.CircSem
 import BqVerif.Proofs.CircUnfoldSem
 import BqVerif.Proofs.CircUnfoldAll
+import BqVerif.Proofs.CircBatchUnfoldSem
+import BqVerif.Proofs.CircBatchUnfoldOk
+import BqVerif.Proofs.CircRemoveAll
+import BqVerif.Proofs.CircSlice
+import BqVerif.Proofs.CircBatchPopGrid
+import BqVerif.Proofs.CircReplaceWith
+import BqVerif.Proofs.CircInsertAny
 /-! # C04 — Circuit editing calls have their documented effect on program order -/
 namespace BqVerif.C04
 open BqVerif.Circ
@@ -391,5 +398,319 @@ theorem C04_insert_circuit_timeline (c sub : Circ) (loc : List Nat) (k : Nat)
     rw [List.mem_map] at hy
     obtain ⟨x, hx, rfl⟩ := hy
     exact hv x hx) q
+
+/-- **batch_unfold keeps the unitary**, for ANY list of points: under the hypotheses of
+`C04_unfold_same_unitary` lifted to the whole circuit (hereditarily well-formed table, blocks of the
+circuit standing on the radixes of their bodies), the circuit after `batch_unfold(points)` — whether
+the call completed or stopped with an error after having unfolded some of the blocks, whatever
+`seekOp` returned — satisfies `Inv`, still fits the table, and denotes what it denoted before.
+(Every step of the fold is an `unfold` at SOME point: it either fails before touching the circuit
+or replaces a block by its body, `unfold_any_point`.) -/
+theorem C04_batch_unfold_same_unitary {M : Type} [Monoid M] (sem : Op → M)
+    (hcomm : ∀ a b, Indep a b → sem a * sem b = sem b * sem a) (b : Blocks) (hb : b.HF)
+    (hblock : ∀ o inner, expandOp b o = some inner → sem o = den sem inner)
+    (c : Circ) (hinv : c.Inv) (hfit : Fits b c) (pts : List (Int × Int)) :
+    (c.batchUnfold b pts).1.Inv ∧ Fits b (c.batchUnfold b pts).1 ∧
+      den sem (c.batchUnfold b pts).1.iter = den sem c.iter :=
+  batchUnfold_same_den sem hcomm b hb hblock c hinv hfit pts
+
+/-- one step of it: `unfold(point)` at ANY point keeps `Inv`, the fitting and the unitary -/
+theorem C04_unfold_any_point_same_unitary {M : Type} [Monoid M] (sem : Op → M)
+    (hcomm : ∀ a b, Indep a b → sem a * sem b = sem b * sem a) (b : Blocks) (hb : b.HF)
+    (hblock : ∀ o inner, expandOp b o = some inner → sem o = den sem inner)
+    (c : Circ) (hinv : c.Inv) (hfit : Fits b c) (p : Int × Int) :
+    (c.unfold b p).1.Inv ∧ Fits b (c.unfold b p).1 ∧
+      den sem (c.unfold b p).1.iter = den sem c.iter :=
+  unfold_any_point sem hcomm b hb hblock c hinv hfit p
+
+-- non-vacuity (the table of the `unfold_all` example is `HF`, shown above): a fitting circuit with
+-- two blocks in one cycle that `batch_unfold` really unfolds, the second one after a shift
+example :
+    let body : Circ := ⟨[2, 2], [[⟨1, [], [0], [2]⟩], [⟨6, [], [0, 1], [2, 2]⟩]]⟩
+    let b : Blocks := [(1000, body)]
+    let c : Circ := ⟨[2, 2, 2, 2], [[⟨1000, [], [0, 1], [2, 2]⟩, ⟨1000, [], [3, 2], [2, 2]⟩]]⟩
+    c.invB = true ∧ (c.ops.all fun o => match b.body? o.gid with
+        | some bd => bd.radixes == o.rad
+        | none => true) = true ∧
+      c.batchUnfold b [(0, 3), (0, 0)] =
+        (⟨[2, 2, 2, 2], [[⟨1, [], [3], [2]⟩], [⟨1, [], [0], [2]⟩],
+          [⟨6, [], [3, 2], [2, 2]⟩, ⟨6, [], [0, 1], [2, 2]⟩]]⟩, .ok ()) := by decide
+
+/-- **remove_all** (`Circ.removeAll`: ONE `batch_pop` of the points `(cycle, location[0])` of all
+operations satisfying `pred` — "equals the operation" or "has the gate" —, which is how the
+harness replays the Python's pop-until-`point()`-fails loop; unchanged when nothing matches).  On
+the grid: every cycle loses exactly its matching operations, in place, and the cycles that became
+empty are dropped.  Hence nothing matching is left, every qudit's timeline is its old timeline with
+the matching operations filtered out (nothing else moves), and `Inv` holds.  The proof follows the
+removal fold of `batch_pop` (last cycle first; inside a cycle one operation at a time, the cycle
+dropped with its last operation: `removeAt_bucket`, `remove_groups`). -/
+theorem C04_remove_all (c : Circ) (hinv : c.Inv) (pred : Op → Bool) :
+    (c.removeAll pred).cycles =
+      (c.cycles.map (fun cy => cy.filter (fun o => !pred o))).filter (fun cy => !cy.isEmpty) ∧
+    (c.removeAll pred).radixes = c.radixes ∧
+    (∀ o ∈ (c.removeAll pred).ops, pred o = false) ∧
+    (c.removeAll pred).ops = c.ops.filter (fun o => !pred o) ∧
+    (∀ q, (c.removeAll pred).timeline q = (c.timeline q).filter (fun o => !pred o)) ∧
+    (c.removeAll pred).Inv := by
+  refine ⟨by rw [removeAll_eq c hinv pred]; rfl, by rw [removeAll_eq c hinv pred], ?_,
+    removeAll_ops c hinv pred, removeAll_timeline c hinv pred, removeAll_inv c hinv pred⟩
+  intro o ho
+  rw [removeAll_ops c hinv pred, List.mem_filter] at ho
+  simpa using ho.2
+
+-- non-vacuity: removing every X (gid 1): cycle 0 vanishes, cycle 1 loses one of its two
+-- operations, cycle 2 vanishes; the same through the points handed to `batch_pop`
+example :
+    let c : Circ := ⟨[2, 2, 2], [[⟨1, [], [0], [2]⟩], [⟨6, [], [0, 1], [2, 2]⟩, ⟨1, [], [2], [2]⟩],
+      [⟨1, [], [0], [2]⟩], [⟨2, [], [1], [2]⟩]]⟩
+    c.invB = true ∧ c.pointsOf (·.gid == 1) = [(0, 0), (1, 2), (2, 0)] ∧
+      c.removeAll (·.gid == 1) = ⟨[2, 2, 2], [[⟨6, [], [0, 1], [2, 2]⟩], [⟨2, [], [1], [2]⟩]]⟩ ∧
+      c.removeAll (·.gid == 9) = c := by decide
+
+/-- **get_slice: the timelines of the slice.**  `get_slice(points)` selects the operations found
+at the (normalised) points — duplicates of one operation collapse — and re-appends them, by cycle,
+on the sorted set `qs` of the qudits they touch.  For a successful call: `sel` holds exactly the
+`(cycle, operation)` pairs addressed by some point; `qs` is strictly increasing and holds exactly
+the qudits of the selected operations; the slice has the radixes of `qs`; and **on its `j`-th qudit
+the slice holds the source timeline of qudit `qs[j]` (`timelineIdx`, whose operations are
+`timeline qs[j]` under `Inv`, `C05_first_last_point`) restricted to the selected operations — same
+operations, same order — relabelled to the slice's numbering**; beyond `qs` it is empty. -/
+theorem C04_slice_timeline (c : Circ) (hinv : c.Inv) (pts : List (Int × Int)) (s : Circ)
+    (h : c.getSlice pts = .ok s) :
+    let npts := pts.map (fun p => (normIdx c.numCycles p.1, normIdx c.numQudits p.2))
+    let sel := c.selected npts
+    let qs := sliceQudits (sel.map (·.2))
+    (∀ k o, (k, o) ∈ sel ↔ k < c.numCycles ∧ ∃ q, (k, q) ∈ npts ∧ c.cell k q = some o) ∧
+    qs.Pairwise (· < ·) ∧ (∀ q, q ∈ qs ↔ ∃ x ∈ sel, q ∈ x.2.loc) ∧
+    s.radixes = qs.map (c.radixes.getD · 0) ∧
+    (∀ j (hj : j < qs.length), s.timeline j =
+      (((c.timelineIdx qs[j]).filter (fun x => sel.contains x)).map (·.2)).map
+        (Op.relabel (fun q => qs.idxOf q))) ∧
+    (∀ j, qs.length ≤ j → s.timeline j = []) := by
+  intro npts sel qs
+  have hs := getSlice_ok c pts s h
+  refine ⟨fun k o => mem_selected c npts k o, sliceQudits_sorted _, ?_, ?_, ?_, ?_⟩
+  · intro q
+    rw [mem_sliceQudits]
+    constructor
+    · rintro ⟨o, ho, hq⟩
+      rw [List.mem_map] at ho
+      obtain ⟨x, hx, rfl⟩ := ho
+      exact ⟨x, hx, hq⟩
+    · rintro ⟨x, hx, hq⟩
+      exact ⟨x.2, List.mem_map.mpr ⟨x, hx, rfl⟩, hq⟩
+  · rw [hs]; exact subCircuit_radixes _ _
+  · intro j hj
+    rw [hs, subCircuit_timeline c.radixes _ j hj, proj_selected c hinv npts]
+  · intro j hj
+    rw [hs]; exact subCircuit_timeline_off c.radixes _ j hj
+
+/-- the value `batch_pop` returns — compared with the real call's result by the differential — is
+`get_slice` of the same points (same errors, same circuit), so the slice model is exercised by
+every `batch_pop` of the histories -/
+theorem C04_batch_pop_returns_slice (c : Circ) (pts : List (Int × Int)) :
+    (c.batchPop pts).2 = c.getSlice pts :=
+  batchPop_returns_getSlice c pts
+
+-- non-vacuity: points given out of order, one negative, one idle, one duplicate operation; the
+-- CNOT of cycle 1 is not selected, so on qudit 0 the slice holds X (cycle 0) then H (cycle 2)
+example :
+    let c : Circ := ⟨[2, 3, 2], [[⟨1, [], [0], [2]⟩, ⟨3, [], [2], [2]⟩], [⟨6, [], [0, 1], [2, 3]⟩],
+      [⟨2, [], [0], [2]⟩, ⟨7, [], [2, 1], [2, 3]⟩]]⟩
+    c.invB = true ∧
+      c.getSlice [(-1, 0), (0, 0), (2, 1), (2, 2), (1, 2)] =
+        .ok ⟨[2, 3, 2], [[⟨1, [], [0], [2]⟩, ⟨7, [], [2, 1], [2, 3]⟩], [⟨2, [], [0], [2]⟩]]⟩ ∧
+      c.getSlice [(0, 0), (-1, 0)] = .ok ⟨[2], [[⟨1, [], [0], [2]⟩], [⟨2, [], [0], [2]⟩]]⟩ ∧
+      c.getSlice [(-1, 1)] = .ok ⟨[3, 2], [[⟨7, [], [1, 0], [2, 3]⟩]]⟩ ∧
+      c.getSlice [(1, 2)] = .error .index ∧ c.getSlice [(3, 0)] = .error .index := by decide
+
+/-- **batch_unfold completes when every point holds a block**: for a hereditarily well-formed table
+and a fitting `Inv` circuit, if every point addresses an operation that is a block of the table,
+the call returns normally, and its result is reached from `c` by a CHAIN OF SUCCESSFUL SINGLE
+`unfold`s (`UnfoldChain`): exactly one for every listed `(cycle, block)` pair — `found` are the
+addressed operations, `buSorted` collapses duplicates and orders them by cycle and `location[0]` —
+taken from the last to the first, each applied at a cycle `K ≥` its listed cycle whose cell on the
+block's `location[0]` holds that very block at that moment.  (So no listed block is skipped or
+unfolded twice, and each step is described by `C04_unfold_timeline`.)  The proof shows that
+`seekOp` always finds the block: unfolding a block of cycle `k` leaves the earlier cycles' cells
+alone (`unfold_cell_below`) and moves the other operations of cycle `k` TOGETHER to one cycle
+`K' ≥ k`, the cycles in between holding only body operations on the unfolded block's qudits
+(`unfold_same_cycle`, from the shape of the grid during `insert_circuit`, `insF_fold_form`). -/
+theorem C04_batch_unfold_all_blocks (c : Circ) (hinv : c.Inv) (b : Blocks) (hb : b.HF)
+    (hfit : Fits b c) (pts : List (Int × Int))
+    (hpts : ∀ p ∈ pts, ∃ k q o, c.getOp p = .ok (k, q, o) ∧ ∃ body, b.body? o.gid = some body) :
+    ∃ found, pts.mapM c.getOp = .ok found ∧ (∀ r, r ∈ found ↔ ∃ p ∈ pts, c.getOp p = .ok r) ∧
+      (c.batchUnfold b pts).2 = .ok () ∧
+      UnfoldChain b c (buSorted c found).reverse (c.batchUnfold b pts).1 ∧
+      (buSorted c found).Nodup ∧
+      (∀ k o, (k, o) ∈ buSorted c found ↔ ∃ q, (k, q, o) ∈ found) := by
+  obtain ⟨found, h1, h2, h3, h4⟩ := batchUnfold_ok c hinv b hb hfit pts hpts
+  obtain ⟨hpw, hmem⟩ := buSorted_props c found
+  refine ⟨found, h1, h2, h3, h4, hpw.imp (fun {a b'} h => fun e => h.2 e.symm), ?_⟩
+  intro k o
+  rw [hmem]
+  constructor
+  · rintro ⟨_, h⟩; exact h
+  · rintro ⟨q, hq⟩
+    refine ⟨?_, q, hq⟩
+    obtain ⟨p, _, hg⟩ := (h2 _).1 hq
+    obtain ⟨_, _, _, _, hcell⟩ := getOp_spec c p k q o hg
+    exact cell_lt c k q o hcell
+
+/-- the two facts about one `unfold` that make `seekOp` succeed -/
+theorem C04_unfold_keeps_places (c : Circ) (hinv : c.Inv) (b : Blocks) (p : Int × Int)
+    (k q0 : Nat) (o : Op) (body : Circ) (hg : c.getOp p = .ok (k, q0, o))
+    (hbody : b.body? o.gid = some body) (hbinv : body.Inv) (hfit : body.radixes = o.rad) :
+    (∀ t, t < k → ∀ q y, c.cell t q = some y → (c.unfold b p).1.cell t q = some y) ∧
+    ∃ K', k ≤ K' ∧ ∀ y, (∃ h : k < c.cycles.length, y ∈ c.cycles[k]) → y ≠ o →
+      (c.unfold b p).1.cell K' y.head = some y ∧
+      (∀ t, k ≤ t → t < K' → (c.unfold b p).1.cell t y.head = none) ∧
+      (∀ t, t < k → ∀ q, (c.unfold b p).1.cell t q = c.cell t q) :=
+  ⟨fun t ht q y hy => unfold_cell_below c hinv b p k q0 o body hg hbody hbinv hfit t ht q y hy,
+    unfold_same_cycle c hinv b p k q0 o body hg hbody hbinv hfit⟩
+
+-- non-vacuity: the hypotheses on the two-blocks-in-one-cycle circuit (table `HF` shown above)
+example :
+    let body : Circ := ⟨[2, 2], [[⟨1, [], [0], [2]⟩], [⟨6, [], [0, 1], [2, 2]⟩]]⟩
+    let b : Blocks := [(1000, body)]
+    let blkA : Op := ⟨1000, [], [0, 1], [2, 2]⟩
+    let blkB : Op := ⟨1000, [], [3, 2], [2, 2]⟩
+    let c : Circ := ⟨[2, 2, 2, 2], [[blkA, blkB]]⟩
+    c.invB = true ∧ c.getOp (0, 3) = .ok (0, 3, blkB) ∧ c.getOp (-1, 1) = .ok (0, 1, blkA) ∧
+      b.body? blkA.gid = some body ∧ b.body? blkB.gid = some body ∧
+      [(0, 3), (-1, 1)].mapM c.getOp = .ok [(0, 3, blkB), (0, 1, blkA)] ∧
+      buSorted c [(0, 3, blkB), (0, 1, blkA)] = [(0, blkA), (0, blkB)] ∧
+      (c.batchUnfold b [(0, 3), (-1, 1)]).2 = .ok () := by decide
+
+/-- **batch_pop on the grid, for ANY points** (all in range, at least one holding an operation —
+otherwise the call raises and nothing changes): every cycle loses exactly the operations addressed
+by some point (`sel`, characterised in `C04_slice_timeline`), in place, and the cycles that became
+empty are dropped; the returned circuit is the slice of the same points
+(`C04_batch_pop_returns_slice`).  Hence every timeline is the old (cycle-indexed) timeline without
+the selected operations. -/
+theorem C04_batch_pop_grid (c : Circ) (hinv : c.Inv) (pts : List (Int × Int))
+    (hall : pts.all (fun p => c.cycleInRange p.1 && c.qubitInRange p.2) = true)
+    (hne : ((pts.map (fun p => (normIdx c.numCycles p.1, normIdx c.numQudits p.2))).filterMap
+      (fun x => (c.cell x.1 x.2).map (fun o => (x.1, o)))).isEmpty = false) :
+    let sel := c.selected (pts.map (fun p => (normIdx c.numCycles p.1, normIdx c.numQudits p.2)))
+    (c.batchPop pts).1.radixes = c.radixes ∧
+    (c.batchPop pts).1.cycles =
+      ((c.cycles.zipIdx).map (fun x => x.1.filter (fun o => !sel.contains (x.2, o)))).filter
+        (fun cy => !cy.isEmpty) := by
+  intro sel
+  rw [batchPop_grid c hinv pts hall hne]
+  exact ⟨rfl, rfl⟩
+
+-- non-vacuity: a negative index, a duplicate and an idle point; cycle 1 vanishes
+example :
+    let c : Circ := ⟨[2, 2], [[⟨1, [], [0], [2]⟩, ⟨1, [], [1], [2]⟩], [⟨6, [], [0, 1], [2, 2]⟩],
+      [⟨2, [], [1], [2]⟩]]⟩
+    let pts : List (Int × Int) := [(-2, 1), (0, 1), (1, 0), (2, 0)]
+    c.invB = true ∧ pts.all (fun p => c.cycleInRange p.1 && c.qubitInRange p.2) = true ∧
+      ((pts.map (fun p => (normIdx c.numCycles p.1, normIdx c.numQudits p.2))).filterMap
+        (fun x => (c.cell x.1 x.2).map (fun o => (x.1, o)))).isEmpty = false ∧
+      (c.batchPop pts).1.cycles = [[⟨1, [], [0], [2]⟩], [⟨2, [], [1], [2]⟩]] := by decide
+
+/-- **pop_qudit: the timelines.**  For an index in range on a circuit with more than one qudit the
+call succeeds; the radix of the popped qudit `k` disappears; and every other qudit `q`, renamed to
+`q` (below `k`) or `q - 1` (above `k`), keeps its timeline except for the operations that also
+touched `k`, which are gone (the batch pop inside removes exactly the operations on `k`,
+`popQudit_batch`, an instance of `C04_batch_pop_grid`). -/
+theorem C04_pop_qudit_timeline (c : Circ) (hinv : c.Inv) (qi : Int)
+    (hr : c.qubitInRange qi = true) (hn : (c.numQudits == 1) = false) (q : Nat)
+    (hq : q ≠ normIdx c.numQudits qi) :
+    (c.popQudit qi).2 = .ok () ∧
+    (c.popQudit qi).1.radixes = c.radixes.eraseIdx (normIdx c.numQudits qi) ∧
+    (c.popQudit qi).1.timeline (if q < normIdx c.numQudits qi then q else q - 1) =
+      ((c.timeline q).filter (fun o => !o.on (normIdx c.numQudits qi))).map
+        (Op.relabel (fun q => if q < normIdx c.numQudits qi then q else q - 1)) :=
+  popQudit_timeline c hinv qi hr hn q hq
+
+-- non-vacuity: popping qudit 1 (as -2) of X@0 ; CNOT@(0,1), H@2 ; H@1 ; CNOT@(2,1) ; X@2
+example :
+    let c : Circ := ⟨[2, 3, 2], [[⟨1, [], [0], [2]⟩], [⟨6, [], [0, 1], [2, 3]⟩, ⟨2, [], [2], [2]⟩],
+      [⟨2, [], [1], [3]⟩], [⟨6, [], [2, 1], [2, 3]⟩], [⟨1, [], [2], [2]⟩]]⟩
+    c.invB = true ∧ c.qubitInRange (-2) = true ∧ (c.numQudits == 1) = false ∧
+      normIdx c.numQudits (-2) = 1 ∧
+      (c.popQudit (-2)).1 = ⟨[2, 2], [[⟨1, [], [0], [2]⟩], [⟨2, [], [1], [2]⟩],
+        [⟨1, [], [1], [2]⟩]]⟩ := by decide
+
+/-- **replace_with_circuit(point, circuit)** as a stand-alone theorem: for a point holding an
+operation `o` and an `Inv` sub-circuit on the radixes of `o`, the call succeeds, keeps `Inv`, and in
+every timeline the place of `o` is taken by a linearisation `inner` of the sub-circuit relabelled
+through `o`'s location (same per-qudit order as the sub-circuit's iteration order); nothing else
+moves.  (`C04_unfold_timeline` is the instance "sub-circuit = body of the block with its parameters
+set".) -/
+theorem C04_replace_with_circuit_timeline (c : Circ) (hinv : c.Inv) (p : Int × Int) (k q0 : Nat)
+    (o : Op) (sub : Circ) (hg : c.getOp p = .ok (k, q0, o)) (hsubinv : sub.Inv)
+    (hfit : sub.radixes = o.rad) :
+    ∃ (hlt : k < c.cycles.length) (inner : List Op),
+      (c.replaceWithCircuit p sub).2 = .ok () ∧ (c.replaceWithCircuit p sub).1.Inv ∧
+      (∀ x ∈ inner, x.loc ≠ []) ∧
+      (∀ q, proj q inner = proj q (sub.iter.map (·.mapLoc o.loc))) ∧
+      (∀ q, c.timeline q = proj q (c.cycles.take k).flatten ++ (if o.on q then [o] else []) ++
+        proj q (c.cycles[k].filter (fun x => !x.on q0)) ++
+          proj q (c.cycles.drop (k + 1)).flatten) ∧
+      (∀ q, (c.replaceWithCircuit p sub).1.timeline q =
+        proj q (c.cycles.take k).flatten ++ proj q inner ++
+        proj q (c.cycles[k].filter (fun x => !x.on q0)) ++
+          proj q (c.cycles.drop (k + 1)).flatten) :=
+  replaceWithCircuit_timeline c hinv p k q0 o sub hg hsubinv hfit
+
+/-- … and its semantic reading: if the replaced operation denotes what the relabelled sub-circuit
+denotes, the circuit denotes what it did. -/
+theorem C04_replace_with_circuit_same_unitary {M : Type} [Monoid M] (sem : Op → M)
+    (hcomm : ∀ a b, Indep a b → sem a * sem b = sem b * sem a)
+    (c : Circ) (hinv : c.Inv) (p : Int × Int) (k q0 : Nat) (o : Op) (sub : Circ)
+    (hg : c.getOp p = .ok (k, q0, o)) (hsubinv : sub.Inv) (hfit : sub.radixes = o.rad)
+    (hsem : sem o = den sem (sub.iter.map (·.mapLoc o.loc))) :
+    den sem (c.replaceWithCircuit p sub).1.iter = den sem c.iter :=
+  replaceWithCircuit_same_den sem hcomm c hinv p k q0 o sub hg hsubinv hfit hsem
+
+-- non-vacuity: replacing the gate on (2,0) in the middle cycle by a 2-cycle circuit
+example :
+    let sub : Circ := ⟨[2, 2], [[⟨1, [], [0], [2]⟩], [⟨6, [], [0, 1], [2, 2]⟩]]⟩
+    let old : Op := ⟨7, [], [2, 0], [2, 2]⟩
+    let c : Circ := ⟨[2, 2, 2], [[⟨2, [], [1], [2]⟩], [old], [⟨2, [], [0], [2]⟩]]⟩
+    c.invB = true ∧ sub.invB = true ∧ c.getOp (-2, 0) = .ok (1, 0, old) ∧ sub.radixes = old.rad ∧
+      c.replaceWithCircuit (-2, 0) sub =
+        (⟨[2, 2, 2], [[⟨2, [], [1], [2]⟩], [⟨1, [], [2], [2]⟩], [⟨6, [], [2, 0], [2, 2]⟩],
+          [⟨2, [], [0], [2]⟩]]⟩, .ok ()) := by decide
+
+/-- **insert_circuit for ANY cycle index** (negative, below `-num_cycles`, past the end): the index
+is resolved ONCE against the cycle count before the insertion (`resolveCycle`: `0` below
+`-num_cycles`, `num_cycles + i` for a negative index in range, `i` otherwise); with `k` the
+resolved cycle and every relabelled operation accepted by `check_valid_operation`, the call
+succeeds and the sub-circuit's operations stand, in forward order, between the cycles `< k` and the
+cycles `≥ k` of every timeline — or at the end of every timeline when `k ≥ num_cycles`. -/
+theorem C04_insert_circuit_any_index (c sub : Circ) (loc : List Nat) (ci0 : Int)
+    (hlen : sub.numQudits = loc.length)
+    (hv : ∀ x ∈ sub.ops, c.checkValid (x.mapLoc loc) = .ok ()) (q : Nat) :
+    ((c.resolveCycle ci0).toNat =
+      if ci0 < -(c.numCycles : Int) then 0
+      else if ci0 < 0 then c.numCycles - (-ci0).toNat else ci0.toNat) ∧
+    (c.insertCircuit ci0 sub loc).2 = .ok () ∧
+    (c.insertCircuit ci0 sub loc).1.timeline q =
+      if (c.resolveCycle ci0).toNat < c.numCycles then
+        proj q (c.cycles.take (c.resolveCycle ci0).toNat).flatten ++
+          proj q (sub.iterRev.reverse.map (·.mapLoc loc)) ++
+          proj q (c.cycles.drop (c.resolveCycle ci0).toNat).flatten
+      else c.timeline q ++ proj q (sub.iter.map (·.mapLoc loc)) :=
+  ⟨resolveCycle_toNat c ci0, insertCircuit_any_timeline c sub loc ci0 hlen hv q⟩
+
+-- non-vacuity: index -1 (before the last cycle), -7 (below the range: at 0), 5 (past the end)
+example :
+    let sub : Circ := ⟨[2, 2], [[⟨1, [], [0], [2]⟩], [⟨6, [], [0, 1], [2, 2]⟩]]⟩
+    let c : Circ := ⟨[2, 2, 2], [[⟨2, [], [1], [2]⟩], [⟨7, [], [2, 0], [2, 2]⟩],
+      [⟨2, [], [0], [2]⟩]]⟩
+    sub.numQudits = [2, 0].length ∧
+      (sub.ops.all fun x => c.checkValid (x.mapLoc [2, 0]) == .ok ()) = true ∧
+      (c.insertCircuit (-1) sub [2, 0]).1.cycles = [[⟨2, [], [1], [2]⟩], [⟨7, [], [2, 0], [2, 2]⟩],
+        [⟨1, [], [2], [2]⟩], [⟨6, [], [2, 0], [2, 2]⟩], [⟨2, [], [0], [2]⟩]] ∧
+      (c.insertCircuit (-7) sub [2, 0]).1.cycles = [[⟨1, [], [2], [2]⟩],
+        [⟨2, [], [1], [2]⟩, ⟨6, [], [2, 0], [2, 2]⟩], [⟨7, [], [2, 0], [2, 2]⟩],
+        [⟨2, [], [0], [2]⟩]] ∧
+      (c.insertCircuit 5 sub [2, 0]).1.cycles = [[⟨2, [], [1], [2]⟩], [⟨7, [], [2, 0], [2, 2]⟩],
+        [⟨2, [], [0], [2]⟩, ⟨1, [], [2], [2]⟩], [⟨6, [], [2, 0], [2, 2]⟩]] := by decide
 
 end BqVerif.C04
